@@ -291,7 +291,9 @@ def k16b_visited_when_expanded(ctx) -> None:
     v = lp.target.id
     adds = [c for c in walk_local(f) if isinstance(c, ast.Call) and isinstance(c.func, ast.Attribute) and c.func.attr == "add" and isinstance(c.func.value, ast.Name)
             and "visit" in c.func.value.id]
-    bad = [c for c in adds if any(c is x for x in ast.walk(lp)) and c.args and norm(D.expanded(f, c.args[0])) == v]
+    # any local set that takes the neighbour inside the neighbour loop is a mark made at push time, whatever it is called
+    marks = [c for c in walk_local(f) if isinstance(c, ast.Call) and isinstance(c.func, ast.Attribute) and c.func.attr == "add" and isinstance(c.func.value, ast.Name)]
+    bad = [c for c in marks if any(c is x for x in ast.walk(lp)) and c.args and norm(D.expanded(f, c.args[0])) == v]
     for c in bad:
         ctx.violation("K16", c, f"`{norm(c)}` marks a neighbour as visited when it is pushed: if it is first reached along a path that closes no cycle, the path that does "
                       "close one is never followed, and the classes on it stay apart")
